@@ -651,6 +651,14 @@ func init() {
 				nsec := d.Signed() % 1e9
 				return F64(float64(sec) + float64(nsec)/1e9)
 			}
+			if di, ok := r.durOf[d]; ok {
+				// the same term the real code computes: float64(d/1e9) + float64(d%1e9)/1e9
+				f := tFPBin("fp.add", tIntToFP(di.sec, true), tFPBin("fp.div", tIntToFP(di.sub, true), mkFP(1e9)))
+				if di.maxS <= 1<<22 && r.m.fpSecondsLemma(di.maxS) {
+					r.fpSecs[f] = di
+				}
+				return f
+			}
 			return r.monoFallback(c, fn, a)
 		},
 		"(time.Duration).String": func(r *Run, c *frame, fn *ssa.Function, a []Value) Value { return r.freshStr("durstr") },
